@@ -33,6 +33,7 @@ type fsig struct {
 	params []svar          // in order
 	res    []svar          // result tuple
 	writes map[string]bool // []byte parameters the body stores into (the caller's slice shares the backing array)
+	reslices map[string]bool // []byte parameters the body re-assigns (then its final value is not the caller's slice)
 }
 
 var translated = map[string]*fsig{}
@@ -183,12 +184,17 @@ func (t *ftr) call(ce *ast.CallExpr) (term string, sig *fsig, back []string, gs 
 			if se, isSl := a.(*ast.SliceExpr); isSl && se.Low != nil && se.High == nil && !se.Slice3 {
 				// x[lo:] handed to a callee that only reads it
 				sn := t.x.stateName(se.X)
-				if sn == "" || t.byName[sn].kind != "bytes" || sig.writes[p.name] {
+				if sn == "" || t.byName[sn].kind != "bytes" || (sig.writes[p.name] && sig.reslices[p.name]) {
 					t.fail(a, "unsupported []byte slice argument")
 					return "", nil, nil, nil, false
 				}
 				gs = append(gs, t.guards(a)...)
-				args = append(args, fmt.Sprintf("(s.%s.drop (%s).toNat)", sn, t.x.exprAs(se.Low, ityp{64, true})))
+				lo := t.x.exprAs(se.Low, ityp{64, true})
+				args = append(args, fmt.Sprintf("(s.%s.drop (%s).toNat)", sn, lo))
+				if sig.writes[p.name] {
+					// the callee stores into x[lo:], which shares x's backing array: x = x[:lo] ++ (what the callee left)
+					back = append(back, fmt.Sprintf("%s := s.%s.take (%s).toNat ++ c.%s", sn, sn, lo, p.name))
+				}
 				continue
 			}
 			sn := t.x.stateName(a)
@@ -198,6 +204,10 @@ func (t *ftr) call(ce *ast.CallExpr) (term string, sig *fsig, back []string, gs 
 			}
 			args = append(args, "s."+sn)
 			if sig.writes[p.name] {
+				if sig.reslices[p.name] {
+					t.fail(a, "callee both stores into and re-slices its []byte parameter")
+					return "", nil, nil, nil, false
+				}
 				back = append(back, fmt.Sprintf("%s := c.%s", sn, p.name))
 			}
 		case "int":
@@ -295,6 +305,21 @@ func (t *ftr) assign(lhs []ast.Expr, rhs []ast.Expr, tok token.Token, n ast.Node
 	if len(rhs) == 1 {
 		if ce, isCall := rhs[0].(*ast.CallExpr); isCall {
 			if term, sig, back, gs, ok := t.call(ce); ok {
+				if (tok == token.ADD_ASSIGN || tok == token.SUB_ASSIGN) && len(lhs) == 1 && len(sig.res) == 1 && sig.res[0].kind == "int" {
+					// x += f(…): f's arguments are evaluated in the state before the call, x is read after it — x is an
+					// integer variable the callee cannot reach, so both are the same value
+					sn := t.x.stateName(lhs[0])
+					v, known := t.byName[sn]
+					if sn == "" || !known || v.kind != "int" || v.w != sig.res[0].w {
+						return t.fail(lhs[0], "unsupported target of op-assignment from a call")
+					}
+					op := "+"
+					if tok == token.SUB_ASSIGN {
+						op = "-"
+					}
+					ups := append(back, fmt.Sprintf("%s := (s.%s %s r)", sn, sn, op))
+					return "(fun s => " + withGuards(gs, fmt.Sprintf("match %s with | .ret r c => .next { s with %s } | .next _ => .panic | .panic => .panic | .diverge => .diverge", term, strings.Join(ups, ", "))) + ")"
+				}
 				if len(lhs) != len(sig.res) || (tok != token.ASSIGN && tok != token.DEFINE) {
 					return t.fail(n, "call result count / operator mismatch")
 				}
@@ -616,7 +641,7 @@ func translateFunc(p *pkgInfo, name string, b *strings.Builder) []string {
 	for _, r := range t.res {
 		rts = append(rts, r.lean)
 	}
-	sig := &fsig{res: t.res, writes: map[string]bool{}}
+	sig := &fsig{res: t.res, writes: map[string]bool{}, reslices: map[string]bool{}}
 	for _, f := range fd.Type.Params.List {
 		for _, n := range f.Names {
 			if v, ok := t.byName[n.Name]; ok {
@@ -631,6 +656,11 @@ func translateFunc(p *pkgInfo, name string, b *strings.Builder) []string {
 				if ix, ok := l.(*ast.IndexExpr); ok {
 					if id, ok := ix.X.(*ast.Ident); ok {
 						sig.writes[id.Name] = true
+					}
+				}
+				if id, ok := l.(*ast.Ident); ok {
+					if v, ok := t.byName[id.Name]; ok && v.kind == "bytes" {
+						sig.reslices[id.Name] = true
 					}
 				}
 			}
@@ -682,7 +712,8 @@ func writeWireFuncs(p *pkgInfo, outPath string) {
 	for _, fn := range []string{"EncodeVarint", "DecodeVarint", "DecodeFixed32", "DecodeFixed64",
 		"EncodeTag", "EncodeZigZag32", "EncodeZigZag64", "DecodeZigZag32", "DecodeZigZag64",
 		"Decoder.Offset", "Decoder.Reset", "Decoder.DecodeTag", "Decoder.DecodeUInt64", "Decoder.DecodeInt64", "Decoder.DecodeUInt32",
-		"Decoder.DecodeInt32", "Decoder.DecodeSInt32", "Decoder.DecodeSInt64", "Decoder.DecodeFixed32", "Decoder.DecodeFixed64"} {
+		"Decoder.DecodeInt32", "Decoder.DecodeSInt32", "Decoder.DecodeSInt64", "Decoder.DecodeFixed32", "Decoder.DecodeFixed64",
+		"Encoder.EncodeUInt64", "Encoder.EncodeUInt32", "Encoder.EncodeInt64", "Encoder.EncodeInt32", "Encoder.EncodeSInt32", "Encoder.EncodeSInt64"} {
 		if errs := translateFunc(p, fn, &b); len(errs) > 0 {
 			fmt.Println("wire primitive", fn, "is outside the translatable fragment (Bridge/WireFuncs.lean no longer applies):")
 			for _, e := range errs {
